@@ -654,3 +654,76 @@ def tag_cases():
                                 out.append({"pattern": p, "graph": g, "root": root, "rm": False,
                                             "commute": operands[0] is o1})
     return out
+
+
+# --------------------------------------------------------------------------- histories (re-used Pattern object)
+
+
+def _multi_out(p) -> bool:
+    return len({o[1] for o in p["outputs"] if o[0] == "O"}) >= 2
+
+
+def _edit_ops(g, rng):
+    """a k-for-k replacement: 1-3 nodes get another operator / domain / overload (same inputs and outputs, so the
+    leaves and the value ids of the graph stay); or two inputs of one node are exchanged"""
+    g2 = copy.deepcopy(g)
+    ops = sorted({n["op"] for n in g["nodes"]} | {"Neg", "Add", "Zz"})
+    for i in rng.sample(range(len(g2["nodes"])), min(len(g2["nodes"]), rng.choice([1, 1, 2, 3]))):
+        n = g2["nodes"][i]
+        r = rng.random()
+        if r < 0.75:
+            n["op"] = rng.choice([o for o in ops if o != n["op"]])
+        elif r < 0.85:
+            n["dom"] = "other" if n["dom"] == "" else ""
+        elif len(n["inputs"]) >= 2:
+            n["inputs"][0], n["inputs"][1] = n["inputs"][1], n["inputs"][0]
+        else:
+            n["op"] = rng.choice([o for o in ops if o != n["op"]])
+    return g2
+
+
+def _edit_append(g, rng):
+    """one more node at the end (the node count changes), consuming existing values"""
+    g2 = copy.deepcopy(g)
+    avail = sorted({i for n in g["nodes"] for i in n["inputs"] if i is not None} | {o for n in g["nodes"] for o in n["outputs"]})
+    nxt = max(avail + [o for o in g["outputs"]] + [c[0] for c in g["consts"]] + list(g.get("foreign", []))) + 1
+    op = rng.choice(sorted({n["op"] for n in g["nodes"]} | {"Neg"}))
+    nin, nout = OPS.get(op, (1, 1))
+    g2["nodes"].append({"dom": "", "op": op, "ov": "", "inputs": [rng.choice(avail) for _ in range(nin)], "attrs": [],
+                        "outputs": list(range(nxt, nxt + nout))})
+    return g2
+
+
+def history_cases(rng, n):
+    """Histories on ONE Pattern object and ONE host graph object: match, edit the graph in place, match again
+    (and a third time after editing back).  Half of the patterns have several output nodes (the candidate tables
+    of SimplePatternMatcher.match are built per call); the graph that is an instance of the pattern comes first or
+    second; edits keep the node count (k-for-k replacement) in ~80 % of the histories and change it otherwise."""
+    out = []
+    tries = 0
+    while len(out) < n and tries < 50 * n:
+        tries += 1
+        want_multi = len(out) % 2 == 0
+        c = gen_case(rng)
+        if _multi_out(c["pattern"]) != want_multi:
+            continue
+        g = c["graph"]
+        if not g["nodes"]:
+            continue
+        other = _edit_ops(g, rng) if rng.random() < 0.8 else _edit_append(g, rng)
+        same_count = len(other["nodes"]) == len(g["nodes"])
+        seq = [g, other] if rng.random() < 0.5 else [other, g]
+        if rng.random() < 0.4:
+            seq.append(seq[0])
+        root = c["root"]
+        if root >= min(len(x["nodes"]) for x in seq):
+            continue
+        roots = [root] * len(seq)
+        if rng.random() < 0.3:
+            # another root first: the first call fails early (or matches elsewhere), the later ones are the real test
+            roots[0] = rng.randrange(len(seq[0]["nodes"]))
+        rms = [c["rm"] if rng.random() < 0.8 else (not c["rm"]) for _ in seq]
+        out.append({"pattern": c["pattern"], "graph": seq[0], "root": roots[0], "rm": rms[0], "commute": False,
+                    "hist": [{"graph": x, "root": r, "rm": m} for x, r, m in zip(seq[1:], roots[1:], rms[1:])],
+                    "hist_same_count": same_count})
+    return out
